@@ -224,9 +224,11 @@ def make_jobs(Job, procs, tier, seed, canary_proc, quick_n3=5, thorough_n3_1=12,
             continue
         for i, f in enumerate(fams3_1):
             jobs.append(Job('n3-1sym-%d-%s' % (i, proc), mod, 'sem_job', dict({'n': 3, 'fam': f, 'proc': proc}, **pp), stop_after_violations=SAV))
-        for i, f in enumerate(fams3_2):
+        # the two large families (65 536 ADFs each) are explored for the first procedure of the property only (stated in the bounds)
+        deep = proc == procs[0] or pp.get('deep')
+        for i, f in enumerate(fams3_2 if deep else []):
             jobs.append(Job('n3-2sym-%d-%s' % (i, proc), mod, 'sem_job', dict({'n': 3, 'fam': f, 'proc': proc}, **pp), stop_after_violations=SAV))
-        for i, f in enumerate(fams4_1):
+        for i, f in enumerate(fams4_1 if deep else []):
             if pp.get('skip_n4') or oracle_kind(proc) == 'complete': continue      # 3^4 candidates x 65 536 functions: left out (stated in the bounds)
             jobs.append(Job('n4-1sym-%d-%s' % (i, proc), mod, 'sem_job', dict({'n': 4, 'fam': f, 'proc': proc}, **pp), stop_after_violations=SAV))
     jobs.append(Job('canary-%s' % canary_proc, mod, 'sem_job', {'n': 2, 'fam': ['sym', 'sym'], 'proc': canary_proc, 'canary': True},
